@@ -98,7 +98,7 @@ where
 {
     writeln!(writer, "#[derive(Debug, Default, YaSerialize, YaDeserialize)]")?;
     if let Some(tns) = &target_namespace {
-        let namespaces = format!("\"{}\" = \"{}\"", tns.abbreviation, tns.namespace);
+        let namespaces = format!("\"{}\" = {:?}", tns.abbreviation, tns.namespace);
         writeln!(
             writer,
             "#[yaserde(prefix = \"{}\", namespaces = {{{}}}, rename = \"{}\")]",
@@ -159,7 +159,7 @@ where
         }
         let namespaces = declared
             .iter()
-            .map(|ns| format!("\"{}\" = \"{}\"", ns.abbreviation, ns.namespace))
+            .map(|ns| format!("\"{}\" = {:?}", ns.abbreviation, ns.namespace))
             .collect::<Vec<String>>()
             .join(", ");
         writeln!(
